@@ -66,3 +66,23 @@ Section GetOneTerm.
     - exfalso. pose proof (find_none _ _ E r0 Hin0) as Hn. cbn beta in Hn. apply andb_false_iff in Hn as [Hn|Hn]; apply N.leb_gt in Hn; lia.
   Qed.
 End GetOneTerm.
+
+(* ---- the error branches ---- *)
+
+(* the error branches of get_one_term: an inverted term range is refused before anything is looked at ... *)
+Theorem get_one_term_inverted_refused cached infos download ts te ul :
+  te < ts -> get_one_term cached infos download ts te ul = None.
+Proof. intros H. unfold get_one_term. replace (te <? ts) with true by lia. reflexivity. Qed.
+
+Lemma find_all_false {A} (f : A -> bool) : forall l, (forall x, In x l -> f x = false) -> find f l = None.
+Proof. induction l as [|x r IH]; intros H; [reflexivity|]. cbn [find]. rewrite (H x (or_introl eq_refl)). apply IH. intros y Hy. apply H. right. exact Hy. Qed.
+
+(* ... and without a cache hit a term no fetch-info entry covers is an error: no download is started, no bytes are made up *)
+Theorem get_one_term_uncovered_refused infos download ts te ul :
+  (forall r, In r infos -> ~ (fst r <= ts /\ te <= snd r)) ->
+  get_one_term None infos download ts te ul = None.
+Proof.
+  intros H. unfold get_one_term. destruct (te <? ts); [reflexivity|]. unfold pick_fetch.
+  rewrite find_all_false; [reflexivity|]. intros r Hr. specialize (H r Hr).
+  destruct (fst r <=? ts) eqn:E1; [|reflexivity]. destruct (te <=? snd r) eqn:E2; [|reflexivity]. exfalso. apply H. lia.
+Qed.
